@@ -39,6 +39,7 @@ Judge(e, mm, h, mseq) ==
          [] a.k = "iivruv"    -> JudgeIIVRuv(e)
          [] a.k = "timevar"   -> JudgeTimeVar(e)
          [] a.k = "weighted"  -> JudgeWeighted(e)
+         [] a.k = "joineps"   -> JudgeJoinEps(e)
          [] a.k \in {"abs", "transit"} -> JudgeAbs(e, Apply(mm, a).abs, Apply(mm, a).transits)
          [] a.k \in {"reread", "elim"} -> V(None, None, None, None, None)      \* a generator step: nothing of this property to judge
          [] OTHER -> V("bad", None, None, None, None)
